@@ -135,6 +135,7 @@ class State:
         s = State()
         s.val = dict(self.val); s.env = dict(self.env); s.fld = dict(self.fld)
         s.rel = self.rel.copy(); s.defs = dict(self.defs); s.obj = dict(self.obj)
+        s.prev_fld = dict(getattr(self, 'prev_fld', {}))
         return s
 
     def new(self, iv, d=None, obj=None):
@@ -722,6 +723,8 @@ class Analyser:
                 s.env[a.arg] = at
             else:
                 s.env[a.arg] = s.new(self.param_top())
+        if len(self.cur) <= 1:
+            self.entry_params = dict(s.env)         # atoms of the entry point's parameters (for rules that inspect the result DAG)
         self.cur.append((self_cls, def_cls, fnode.name))
         flow = self.block([s], fnode.body)
         self.cur.pop()
@@ -1085,6 +1088,9 @@ class Analyser:
         if isinstance(target, ast.Name):
             s.env[target.id] = atom
         elif isinstance(target, ast.Attribute) and isinstance(target.value, ast.Name) and target.value.id == 'self':
+            if target.attr in s.fld:
+                s.prev_fld = dict(getattr(s, 'prev_fld', {}))
+                s.prev_fld[target.attr] = s.fld[target.attr]
             s.fld[target.attr] = atom
             # accumulator axioms are facts about the field at all times, not only at method boundaries
             if self.axioms and self.cur:
